@@ -11,7 +11,7 @@ if args[:1] == ["--tier"]:
     tier = args[1]; args = args[2:]
 ids = args or sorted(os.listdir(ROOT + "/seeded"))
 ids = [i for i in ids if os.path.isdir(f"{ROOT}/seeded/{i}")]
-claimed = {c["property"] if "property" in c else c["id"] for c in json.load(open(ROOT + "/MANIFEST.json"))["checks"]} if os.path.exists(ROOT + "/MANIFEST.json") else set()
+claimed = {c["property_id"] for c in json.load(open(ROOT + "/MANIFEST.json"))["checks"]}
 if subprocess.run(["git", "-C", "/repo", "diff", "--quiet"]).returncode != 0:
     sys.exit("/repo is not clean")
 rows = []
@@ -23,6 +23,9 @@ for sid in ids:
     res = {}
     try:
         for p in [prop] + RELATED.get(prop, []):
+            if p not in claimed:
+                res[p] = {"exit": None, "violation_line": None, "concrete_input": False, "summary": "property not claimed in MANIFEST.json"}
+                continue
             r = subprocess.run([ROOT + "/check", p, "--tier", tier], capture_output=True, text=True, cwd=ROOT)
             out = r.stdout + r.stderr
             viol = [l for l in out.splitlines() if l.startswith("VIOLATION")]
